@@ -98,6 +98,14 @@ def index_tie():
                     "IndexC17Proofs.v", "IndexGen.")
 
 
+def orders_tie():
+    """ArbitrageAgent._submit_orders and MarketMakerAgent.submit_orders (C20): the order lists they build"""
+    import py2coq_orders
+    srcs = [os.path.join(REPO, "pams", "agents", f) for f in ("arbitrage_agent.py", "market_maker_agent.py")]
+    return _run_tie("translator:pams/agents/arbitrage_agent.py+market_maker_agent.py(C20 kernel)", srcs,
+                    lambda: py2coq_orders.translate_all(REPO), "OrdersGen.v", "OrdersC20Proofs.v", "OrdersGen.")
+
+
 def holdings_sweep_c05(seed=0, tier="quick", cov=None):
     """directed search used with the C05 tie: the real Simulator._update_agents_for_execution on small populations and fill lists
     (self-trades, repeated parties, several markets), against the property text: the buyer pays price x volume and receives volume
